@@ -43,11 +43,21 @@ pub fn point(name: &'static str) {
 static REC_ON: AtomicBool = AtomicBool::new(false);
 static REC_SEQ: AtomicU64 = AtomicU64::new(0);
 static REC_BUF: Mutex<Vec<String>> = Mutex::new(Vec::new());
+static REC_T0: Mutex<Option<std::time::Instant>> = Mutex::new(None);
+
+/// Milliseconds since `recorder_start` (0 when no recorder was started).
+pub fn elapsed_ms() -> u128 {
+  REC_T0
+    .lock()
+    .unwrap_or_else(|e| e.into_inner())
+    .map_or(0, |t| t.elapsed().as_millis())
+}
 
 /// Start recording (clears anything recorded before).
 pub fn recorder_start() {
   let mut g = REC_BUF.lock().unwrap_or_else(|e| e.into_inner());
   g.clear();
+  *REC_T0.lock().unwrap_or_else(|e| e.into_inner()) = Some(std::time::Instant::now());
   REC_SEQ.store(0, Ordering::SeqCst);
   REC_ON.store(true, Ordering::SeqCst);
 }
